@@ -176,8 +176,10 @@ func catalogue(k *checker) {
 		c.Distinct(e.id)
 		switch {
 		case e.reject && r.Success:
+			c.Count("failing:catalogue-accepted", 1)
 			c.Fail(vl.Fail{Case: e.id, Obs: "accepted although " + e.why, Files: files})
 		case !e.reject && !r.Success:
+			c.Count("failing:catalogue-rejected", 1)
 			c.Fail(vl.Fail{Case: e.id, Obs: "rejected although " + e.why + ": " + r.ErrSummary(), Files: files})
 		case !e.reject:
 			mu.Lock()
